@@ -1,5 +1,6 @@
 import ColumnVerif.Model.Wire
 import ColumnVerif.Model.Swap
+import ColumnVerif.Model.SnapRes
 import Driver.Util
 /-! `codec` mode: one commit buffer driven through the writer API, read back in every way. -/
 namespace Driver.CodecMode
@@ -72,7 +73,23 @@ def step (st : St) (line : String) : St × String :=
       | some b => ({ st with buf := b }, "ok")
       | none => (st, "no-op")
     | _, _, _ => (st, "bad-op")
+  | ["snapres", rec, op, ws, cp] =>
+    -- one Snapshot call of the resource model, with the clean-up actions of the repaired code
+    let r0 : ColumnVerif.SnapRes.Res := ⟨rec == "1", 10, 10⟩
+    let (r1, err) := ColumnVerif.SnapRes.snapshot ColumnVerif.SnapRes.SnapCfg.good r0 ⟨op == "1", ws == "1", cp == "1"⟩
+    (st, s!"rec={r1.recorder} dfd={(r1.fds : Int) - 10} dtemp={(r1.temps : Int) - 10} err={err}")
   | ["log-new"] => ({ st with log := [] }, "ok")
+  | ["logplain", hex] =>
+    match unhex hex with
+    | some bs => ({ st with log := bs }, "ok")
+    | none => (st, "bad-op")
+  | ["logcut", m, corrupt] =>
+    -- a cut log: the decoder sees the first `m` decompressed bytes; `corrupt` = the cut fell inside an s2 frame
+    match m.toNat? with
+    | some m =>
+      let (cs, err) := rangeLog ⟨st.log.take m, corrupt == "true"⟩
+      (st, s!"n={cs.length} err={err}")
+    | none => (st, "bad-op")
   | ["log-append", c, id] =>
     match c.toNat?, id.toNat? with
     | some c, some id => ({ st with log := st.log ++ encCommit ⟨id, c, [st.buf]⟩ }, "ok")
